@@ -1,26 +1,12 @@
-(* Refuted/C15_total.v — "cells of any type in the range never make the
-   function fail" is false in the model (advisory; witnesses = the findings). *)
+(* Refuted/C15_error_cells.v — "cells of any type never make the function
+   fail" is false for the AGGREGATED range (advisory; witnesses = the known
+   finding C15-error-in-aggregated-cells). *)
 From Coq Require Import ZArith List.
 From PV Require Import Lib.Py Model.Criteria.
 Import ListNotations.
 Open Scope Z_scope.
 
-Definition t_apple : pyval := VStr [97; 112; 112; 108; 101].
-Definition t_a_star : pyval := VStr [97; 42].
 Definition t_div0 : pyval := VStr [35; 68; 73; 86; 47; 48; 33].
-
-(* COUNTIF({"apple";1}, "a*") raises AttributeError: x.lower() on a number *)
-Theorem C15_total_refuted : exists rng crit, countif rng crit = Raise AttributeError.
-Proof.
-  exists (VTuple [VTuple [t_apple]; VTuple [VInt 1]]), t_a_star. vm_compute. reflexivity.
-Qed.
-
-(* ... and on a logical, through SUMIFS *)
-Theorem C15_total_sumifs_refuted : exists rng crit,
-  sumifs rng [rng; crit] = Raise AttributeError.
-Proof.
-  exists (VTuple [VTuple [t_apple; VBool true]]), t_a_star. vm_compute. reflexivity.
-Qed.
 
 (* an error value among the selected cells of the aggregated range:
    SUMIFS raises TypeError (sum() of the error text), MAXIFS returns the
